@@ -371,7 +371,7 @@ func vC14RrRunInBubble(t *testing.T, c *vh.Case, sc vC14RrScn, target int) *vC14
 
 func TestVerif_C14_rtrefresh(t *testing.T) {
 	vh.Run(t, vh.Spec{Prop: "C14", Unit: "rtrefresh", Quick: 120, Thorough: 4000, CostMs: 45,
-		Rule: "PRNG RtRefreshManager (auto-refresh on/off, 0-12 table peers all due for a liveness ping, 25% failing dials/queries, latencies 1 ms - 3 s, 1-25 ms to abort after cancellation, refresh-done channel consumed or not, interval 5-60 s) with 1-5 Refresh / Refresh(force) / RefreshNoWait callers at PRNG instants; reference run counts boundary events (caller, query, ping, dial starts/ends, refresh-done), re-runs Close immediately after Start, at 2 events on the loop's stack and 2 PRNG indices (thorough: all, <= 64); non-trivial = Close while a caller was pending or the loop was busy; distinct by (config, event kind at Close)",
+		Rule:    "PRNG RtRefreshManager (auto-refresh on/off, 0-12 table peers all due for a liveness ping, 25% failing dials/queries, latencies 1 ms - 3 s, 1-25 ms to abort after cancellation, refresh-done channel consumed or not, interval 5-60 s) with 1-5 Refresh / Refresh(force) / RefreshNoWait callers at PRNG instants; reference run counts boundary events (caller, query, ping, dial starts/ends, refresh-done), re-runs Close immediately after Start, at 2 events on the loop's stack and 2 PRNG indices (thorough: all, <= 64); non-trivial = Close while a caller was pending or the loop was busy; distinct by (config, event kind at Close)",
 		Clauses: []string{"baseline-clean", "close-returns-in-bound", "no-goroutine-after-close", "close-again-returns", "refresh-answered", "late-refresh-answered", "refresh-channel-closed", "no-goroutine-after-2min"}},
 		func(c *vh.Case) {
 			r := c.R
@@ -410,7 +410,7 @@ func TestVerif_C14_rtrefresh(t *testing.T) {
 
 func TestVerif_C14_rtrefresh_par(t *testing.T) {
 	vh.Run(t, vh.Spec{Prop: "C14", Unit: "rtrefresh_par", Quick: 10, Thorough: 300, CostMs: 1000, WallS: 300,
-		Rule: "real time, no bubble: per case 40 managers (instant query / ping functions, empty or 3-peer table), 2-6 goroutines calling Refresh(force) in a tight loop (yielding) while Close runs at a PRNG spin count; verdict = panic recovered from Close / Refresh, unanswered channel (logical: the receive is attempted after Close returned and everything the manager started has exited), census after Close; wall clock only bounds the harness (watchdog = inconclusive); non-trivial = >= 1 Refresh call overlapped Close; distinct by (spinners, peers)",
+		Rule:    "real time, no bubble: per case 40 managers (instant query / ping functions, empty or 3-peer table), 2-6 goroutines calling Refresh(force) in a tight loop (yielding) while Close runs at a PRNG spin count; verdict = panic recovered from Close / Refresh, unanswered channel (logical: the receive is attempted after Close returned and everything the manager started has exited), census after Close; wall clock only bounds the harness (watchdog = inconclusive); non-trivial = >= 1 Refresh call overlapped Close; distinct by (spinners, peers)",
 		Clauses: []string{"close-panic", "no-goroutine-after-close", "refresh-answered"}},
 		func(c *vh.Case) {
 			r := c.R
